@@ -320,6 +320,28 @@ def cli_lane(pid, tier, seed, agg, meta, profiles=("debug", "release")):
                     m["violations"] += 1
                     rep["violations"].append({"monitor": "c18.write-failure", "sig": "exit-zero-without-result-line", "rule": r, "data": d, "expected": "a non-zero exit status when the result line cannot be written",
                                               "got": {"exit": rc}, "note": "exit status 0 although no result line was delivered (stdout = /dev/full)", "lane": "cli-" + profile, "direct": False, "count": 1})
+            # the same with a reader that has gone away (stdout = a pipe whose read end is closed): dying of
+            # SIGPIPE or failing are both fine, status 0 is not - nothing was delivered
+            for r, d in wf:
+                argv = [binary] + (["--"] if r.startswith("-") or d.startswith("-") else []) + [r, d]
+                rfd, wfd = os.pipe()
+                os.close(rfd)
+                try:
+                    p = subprocess.run(argv, stdin=subprocess.DEVNULL, stdout=wfd, stderr=subprocess.PIPE, timeout=30)
+                    rc = p.returncode
+                except subprocess.TimeoutExpired:
+                    rc = None
+                finally:
+                    os.close(wfd)
+                rep["evaluations"] += 1
+                m["observed"] += 1
+                m["judged"] += 1
+                hashes.add(hkey("closed-pipe", r, d))
+                rep["cells"]["stdout-reader-gone"] = rep["cells"].get("stdout-reader-gone", 0) + 1
+                if rc == 0:
+                    m["violations"] += 1
+                    rep["violations"].append({"monitor": "c18.write-failure", "sig": "exit-zero-without-result-line:closed-pipe", "rule": r, "data": d, "expected": "a non-zero exit status (or death by SIGPIPE) when the result line cannot be written",
+                                              "got": {"exit": rc}, "note": "exit status 0 although no result line was delivered (stdout = a pipe without a reader)", "lane": "cli-" + profile, "direct": False, "count": 1})
         # data typed on a terminal: stdin is a tty (pty), not a pipe or a file
         if pid == "C18":
             import pty
